@@ -69,7 +69,7 @@ def rand_wfsa(rng, q, syms, m, p_eps=0.25):
     arcs = []
     for _ in range(rng.randint(1, m)):
         i, j = rng.choice(states), rng.choice(states)
-        arcs.append((i, EPS if rng.random() < p_eps else rng.choice(syms), j))
+        arcs.append((i, EPS if (rng.random() < p_eps or not syms) else rng.choice(syms), j))   # empty alphabet: epsilon arcs only
     start = rng.sample(states, rng.randint(1, min(2, q)))
     stop = rng.sample(states, rng.randint(1, min(2, q)))
     return mk(states, start, stop, arcs, rng)
